@@ -43,4 +43,10 @@ CHECKS = [
              "must leave nothing of the application's head on the wire; otherwise the head must equal the model line for line; plainly valid heads "
              "must not be refused.",
      "note": "server may refuse more than the statement demands; error pages (4xx/5xx written by the server itself) count as 'nothing of the application's head'"},
+    {"id": "C15", "engine": "W",
+     "technique": "property-based differential testing (Hypothesis) of the WSGI environ against an independent RFC 3875 / PEP 3333 mapping of the raw request bytes",
+     "text": "Targets in the four request-target forms built from escapes, raw 8-bit bytes and CTLs x methods x versions x repeated/odd header lists x "
+             "SCRIPT_NAME (process environment or forwarder header) x 4 worker classes are served by the real handle(); the environ the application "
+             "received must equal the reference mapping key by key (incl. no invented HTTP_* keys); plain requests must be accepted.",
+     "note": "fragment split at '#' as pinned by the suite; repeated Content-Type/Length may be any sent value; absolute-form with empty path may give '' or '/'"},
 ]
